@@ -460,6 +460,38 @@ def make_check_borders(row_module):
             r = p.rows[-1]
             if bl_body and any((c.borders["b"] or ("", 0, 0))[0] != word(bl_body) for c in r.cells):
                 bad.append(f"page {pi + 1}: last row before the break has bottom edges {[c.borders['b'] for c in r.cells]}, body.border_last is {bl_body!r}")
+        # "all other data-cell edges carry exactly the user's border_top / border_bottom": interior data rows of each page against the user's
+        # (recycled) pattern at the ORIGINAL row and column
+        if not body.group_by and not body.page_by and not body.subline_by:
+            rows = data_rows_in_order(doc, parsed)
+            if len(rows) == doc.df.height:
+                def pat(attr, i, j):
+                    v = getattr(body, attr)
+                    if not v or not isinstance(v, (list, tuple)):
+                        return None
+                    if isinstance(v[0], (list, tuple)):
+                        row = v[i % len(v)]
+                        return row[j % len(row)]
+                    return v[j % len(v)]
+                k = 0
+                for pi, p in enumerate(parsed.pages):
+                    on_page = [r for r in p.rows if k < len(rows)]
+                    drows = []
+                    for r in p.rows:
+                        t = tuple(c.text for c in r.cells)
+                        if k < len(rows) and (pi, t) == rows[k]:
+                            drows.append((k, r))
+                            k += 1
+                    for idx, (kk, r) in enumerate(drows):
+                        for j, c in enumerate(r.cells):
+                            if idx > 0:
+                                want = pat("border_top", kk, j)
+                                if want is not None and (c.borders["t"] or ("", 0, 0))[0] != word(want):
+                                    bad.append(f"data row {kk}, column {j}: top edge {c.borders['t']}, the user's border_top there is {want!r}")
+                            if idx < len(drows) - 1:
+                                want = pat("border_bottom", kk, j)
+                                if want is not None and (c.borders["b"] or ("", 0, 0))[0] != word(want):
+                                    bad.append(f"data row {kk}, column {j}: bottom edge {c.borders['b']}, the user's border_bottom there is {want!r}")
         return bad[:4]
     return check
 
